@@ -34,7 +34,7 @@ ASSUMPTIONS = ["'in-between' cases (needed side present, other side missing) may
                "interest for the elapsed period may already have been credited when a rebalance raises (stated by the property)"]
 REQUIRED = ["C13:valuation-raises-when-missing", "C13:valuation-ok-when-flat", "C13:rebalance-raises-when-missing",
             "C13:rebalance-ok-when-quoted", "C13:atomic-on-failure", "C13:failpoint-atomic", "C13:episode-atomic"]
-REQUIRED_CATS = ["measure:weight", "measure:nr-contracts"]
+REQUIRED_CATS = ["measure:weight", "measure:nr-contracts", "closed-with-float-residual"]
 REQUIRED_HITS = ["Broker.transact", "Broker.rebalance", "Rebalancing.make_trades"]
 TECHNIQUE = "runtime monitoring with fault injection: enumerated quote faults and sys.monitoring failpoints, atomicity asserted via the Broker.transact hook"
 LEVEL_TEXT = ("Fault enumeration. All single-contract fault kinds x position x target combinations are enumerated against the real "
@@ -78,9 +78,17 @@ def apply_fault(ex, t, c, f, q):
             ex.process_EventNBBO(EventNBBO(t, c, 50.0, 51.0))
 
 
-def judge(ctx, b, ex, cs, q, tgt, t, label):
-    """Valuation and rebalance oracles on the broker `b` whose true quotes are q."""
+def judge(ctx, b, ex, cs, q, tgt, t, label, intended=None):
+    """Valuation and rebalance oracles on the broker `b` whose true quotes are q.
+    `intended` = the positions the harness built (sum of its trades, dust = flat)."""
     pos = b.holdings_quantity
+    if intended is not None:
+        ok = all(abs(pos.get(c, 0.0) - intended.get(c, 0.0)) <= 1e-9 * max(1.0, abs(intended.get(c, 0.0))) and
+                 (intended.get(c, 0.0) != 0.0 or pos.get(c, 0.0) == 0.0) for c in cs)
+        ctx.check("C13:positions-as-traded", ok, held={c.symbol: pos.get(c, 0.0) for c in cs},
+                  intended={c.symbol: v for c, v in intended.items()})
+        pos = dict(pos)
+        pos.update(intended)
 
     def liqmissing(c):
         p = pos.get(c, 0.0)
@@ -288,9 +296,19 @@ def case(ctx, i, tier):
         q[c] = (mid * 0.999, mid * 1.001)
         ex.process_EventNBBO(EventNBBO(t, c, *q[c]))
     b = Broker(ex, deposit=1e7)
+    intended = {c: 0.0 for c in cs}
     for c in cs:
         if c not in never and rng.random() < 0.6:
-            b.transact(Trade(t, c, rng.choice([-1, 1]) * rng.uniform(1, 5), *q[c]))
+            if rng.random() < 0.25:
+                # opened and closed again by parts whose floats do not cancel exactly (100.1 + 200.2 - 300.3):
+                # the residual (~1e-14 contracts) is dust - the position is flat and needs no quote
+                sgn = rng.choice([-1, 1])
+                for part in (100.1, 200.2, -300.3):
+                    b.transact(Trade(t, c, sgn * part, *q[c]))
+                ctx.cat("closed-with-float-residual")
+            else:
+                intended[c] = rng.choice([-1, 1]) * rng.uniform(1, 5)
+                b.transact(Trade(t, c, intended[c], *q[c]))
     faults = {}
     for c in cs:
         f = rng.choice(["none", "none", "bidnan", "asknan", "bothnan", "disc", "disc+requote"])
@@ -298,8 +316,9 @@ def case(ctx, i, tier):
         apply_fault(ex, t, c, f, q)
         ctx.cat("fault:" + faults[c])
     tgt = {c: rng.choice([0, 0, rng.uniform(-0.3, 0.3)]) for c in cs if rng.random() < 0.8}
-    pos = b.holdings_quantity
-    judge(ctx, b, ex, cs, q, tgt, t, label="random")
+    pos = dict(b.holdings_quantity)
+    pos.update(intended)
+    judge(ctx, b, ex, cs, q, tgt, t, label="random", intended=intended)
     ctx.nontrivial = any(f != "none" and (pos.get(c, 0.0) != 0 or tgt.get(c, 0) != 0) for c, f in faults.items())
     ctx.sample = {"contracts": [c.symbol for c in cs], "faults": {c.symbol: f for c, f in faults.items()},
                   "positions": {c.symbol: pos.get(c, 0.0) for c in cs}, "targets": {c.symbol: v for c, v in tgt.items()}}
